@@ -1561,7 +1561,11 @@ class Quantity(metaclass=QuantityMeta):
 
     def __hash__(self) -> int:
         """hash(self)"""
-        return hash((self.amount, self.unit))
+        equiv = self.unit._equiv
+        if equiv is None:
+            return hash((self.amount, self.unit))
+        # equal quantities with different units must have equal hashes
+        return hash((self.amount * equiv, self.__class__))
 
     def __abs__(self: Q) -> Q:
         """abs(self) -> self.Quantity(abs(self.amount), self.unit)"""
